@@ -6,6 +6,8 @@ import (
 	"strings"
 	"testing"
 
+	aws1 "github.com/aws/aws-sdk-go/aws"
+	ddb1 "github.com/aws/aws-sdk-go/service/dynamodb"
 	"pgregory.net/rapid"
 
 	"verifharness/drv"
@@ -19,6 +21,10 @@ import (
 type c10Case struct {
 	Item       model.Item `json:"item"`
 	WithUpdate bool       `json:"withUpdate"`
+	// Share: in the SDK v1 request the equal attributes dupA / dupB and the
+	// elements of duplist are one and the same *AttributeValue (callers reuse
+	// constants); the stored item must not depend on that
+	Share bool `json:"share,omitempty"`
 }
 
 func boundaryMembers(it model.Item) []string {
@@ -50,7 +56,12 @@ func boundaryMembers(it model.Item) []string {
 	return out
 }
 
-func runC10(c c10Case) *failure {
+func runC10(c c10Case) (fl *failure) {
+	defer func() {
+		if r := recover(); r != nil {
+			fl = newFail("runtime panic", "C10 %v", r)
+		}
+	}()
 	for _, d := range realDrivers() {
 		if d.Name() == "v2" && open("F-V2EMPTY") && hasEmptyLM(c.Item) {
 			continue
@@ -61,7 +72,20 @@ func runC10(c c10Case) *failure {
 		}
 		want := model.CloneItem(c.Item)
 		key := model.Item{"pk": want["pk"], "sk": want["sk"]}
-		if r := d.Apply(model.Op{Kind: "Put", Table: "tbl", Item: c.Item}); r.Err != "" {
+		if v1, isV1 := d.(*drv.V1); isV1 && c.Share {
+			in := drv.ToV1Item(c.Item)
+			if a, ok := in["dupA"]; ok {
+				in["dupB"] = a
+			}
+			if l, ok := in["duplist"]; ok && len(l.L) > 0 {
+				for i := range l.L {
+					l.L[i] = l.L[0]
+				}
+			}
+			if _, err := v1.C.PutItem(&ddb1.PutItemInput{TableName: aws1.String("tbl"), Item: in}); err != nil {
+				return newFail("valid item rejected", "v1 PutItem with shared sub-values: %v", err)
+			}
+		} else if r := d.Apply(model.Op{Kind: "Put", Table: "tbl", Item: c.Item}); r.Err != "" {
 			return newFail("valid item rejected", "%s PutItem: %s %s", d.Name(), r.Err, r.ErrText)
 		}
 		if c.WithUpdate {
@@ -109,7 +133,7 @@ func runC10(c c10Case) *failure {
 	return nil
 }
 
-const ruleC10 = "rapid: items = S key + 1-6 attributes drawn from the full attribute-value generator (all ten types, nesting depth up to 6, forced boundary members: empty string, empty binary, empty list/map, false, NULL, single-element sets, numerals of every notation class), written with PutItem and read back through GetItem, Query, Scan (both SDK clients) and BatchGetItem (v2); half of the cases interpose an UpdateItem that sets an unrelated attribute so that every attribute passes through the expression interpreter's object mapping. Oracle: equality of names, types and values (sets as sets, numbers by numeric value). Non-trivial = the tree contains a boundary member or has depth >= 3; distinct = hash of the item."
+const ruleC10 = "rapid: items = S key + 1-6 attributes drawn from the full attribute-value generator (all ten types, nesting depth up to 6, forced boundary members: empty string, empty binary, empty list/map, false, NULL, single-element sets, numerals of every notation class incl. 40-digit trailing-zero forms, adjacent 19-36 digit numbers as values and as set members; a quarter of the cases with equal sub-values that share one pointer in the SDK v1 request), written with PutItem and read back through GetItem, Query, Scan (both SDK clients) and BatchGetItem (v2); half of the cases interpose an UpdateItem that sets an unrelated attribute so that every attribute passes through the expression interpreter's object mapping. Oracle: equality of names, types and values (sets as sets, numbers by numeric value). Non-trivial = the tree contains a boundary member or has depth >= 3; distinct = hash of the item."
 
 // TestC10 decides property C10.
 func TestC10(t *testing.T) {
@@ -127,6 +151,25 @@ func TestC10(t *testing.T) {
 		it["sk"] = model.Str(gen.NonEmptyStr(false).Draw(rt, "sk"))
 		delete(it, "zz9")
 		c := c10Case{Item: it, WithUpdate: withUpdate}
+		if rapid.IntRange(0, 3).Draw(rt, "share") == 0 {
+			c.Share = true
+			v := gen.AV(rt, o, "dupV")
+			it["dupA"], it["dupB"] = v, v.Clone()
+			e := gen.AV(rt, o, "dupE")
+			it["duplist"] = model.List(e, e.Clone(), e.Clone())
+		}
+		if !withUpdate && rapid.IntRange(0, 3).Draw(rt, "bigNumbers") == 0 {
+			// numbers that differ only beyond float64 precision, also as set members
+			base := rapid.SampledFrom([]string{"1234567890123456789", "0.1234567890123456789", "9007199254740992", "123456789012345678901234567890123456"}).Draw(rt, "bigBase")
+			d := model.MustDec(base)
+			one := model.MustDec("1")
+			if containsDotStr(base) {
+				one = model.MustDec("0.0000000000000000001")
+			}
+			it["bigns"] = model.NumSet(base, d.Add(one).Plain(), d.Add(one).Add(one).Plain())
+			it["bign"] = model.Num(d.Add(one).Plain())
+			it["bigl"] = model.List(model.Num(base), model.Map(map[string]model.AV{"k": model.NumSet(base, d.Add(one).Plain())}))
+		}
 		pending("C10", "c10", c)
 		depth := 0
 		for _, v := range it {
@@ -154,6 +197,8 @@ func TestC10(t *testing.T) {
 	})
 }
 
+func containsDotStr(s string) bool { return strings.Contains(s, ".") }
+
 func init() {
 	replayers["c10"] = func(raw json.RawMessage) *failure {
 		var c c10Case
@@ -178,6 +223,7 @@ func TestC13(t *testing.T) {
 	st.SetRule(ruleC13)
 	rapid.Check(t, func(rt *rapid.T) {
 		w := newWorld("C13", worldCfg{V1: true, V2: true, WhiteBox: true, GetKeys: true})
+		w.drawCheckPeriod(rt)
 		s := drawSchema(rt, "tbl", schemaCfg{KeyTypes: []string{"S", "S", "S", "N", "B"}, MaxIndexes: 1})
 		o := avOpts(1, true)
 		g := newTgen(rt, s, o, 1)
@@ -337,8 +383,9 @@ func TestC13(t *testing.T) {
 					keyUpdate = true
 				}
 			},
-			"": func(rt *rapid.T) { fail(w.check()) },
+			"": func(rt *rapid.T) { fail(w.maybeCheck()) },
 		})
+		fail(w.check())
 	})
 }
 
@@ -378,6 +425,7 @@ func TestC15(t *testing.T) {
 	st.SetRule(ruleC15)
 	rapid.Check(t, func(rt *rapid.T) {
 		w := newWorld("C15", worldCfg{V1: true, V2: true, WhiteBox: true, IndexReads: true})
+		w.drawCheckPeriod(rt)
 		s := drawSchema(rt, "tbl", schemaCfg{KeyTypes: []string{"S"}, MaxIndexes: 2})
 		o := avOpts(2, true)
 		g := newTgen(rt, s, o, rapid.IntRange(3, 6).Draw(rt, "poolSize"))
@@ -471,8 +519,9 @@ func TestC15(t *testing.T) {
 				data(model.Op{Kind: "BatchGet", Batch: []model.TableBatch{tb}}, false)
 			},
 			"transact": func(rt *rapid.T) { data(model.Op{Kind: "TransactWrite"}, true) },
-			"":         func(rt *rapid.T) { fail(w.check()) },
+			"":         func(rt *rapid.T) { fail(w.maybeCheck()) },
 		})
+		fail(w.check())
 	})
 }
 
